@@ -133,11 +133,13 @@ def eqsOf (ops : Ops F64 R Q U) : List (Q × F64) → List Bool
   | a :: b :: rest => ops.hamEq a.1 b.1 :: eqsOf ops rest
   | _ => []
 
-/-- `make_ham_equalities` -/
+/-- `make_ham_equalities`: the REGENERATED body (`Generated/Fields.lean`: which cache is rebuilt under which guard),
+with the two sub-slice computations plugged in -/
 def makeHamEqualities (ops : Ops F64 R Q U) (tc : TC F64 R Q) : TC F64 R Q :=
-  { tc with
-    graph_ham_eq_a := some (eqsOf ops (firstSub tc.graphs).1),
-    graph_ham_eq_b := some (eqsOf ops (secondSub tc.graphs).2.1) }
+  tc.makeHamEqualities (fun l => eqsOf ops (firstSub l).1) (fun l => eqsOf ops (secondSub l).2.1)
+
+/-- `add_qmc_stepper` after a successful `can_swap_graphs` check: the REGENERATED body (which caches are reset) -/
+def addReplica (tc : TC F64 R Q) (q : Q) (beta : F64) : TC F64 R Q := tc.addQmcStepper q beta
 
 /-- serial `perform_swaps`: per chunk of two, draw the uniform, then (if a cached equality is there — `zip`)
 decide and swap.  The draw for a pair happens before the `zip` looks at `hameqs`, as in the iterator chain. -/
@@ -209,9 +211,10 @@ def phaseB (swaps : R → List (Q × F64) → List Bool → List (Q × F64) × R
   let (sub', r', k) := swaps s.2 sub eqs
   ({ tc with graphs := hd ++ sub' ++ tl, total_swaps := tc.total_swaps + k }, r')
 
-/-- `if self.graph_ham_eq_a.is_none() || self.graph_ham_eq_b.is_none() { self.make_ham_equalities() }` -/
+/-- `if <guard> { self.make_ham_equalities() }` with the REGENERATED guard
+(`self.graph_ham_eq_a.is_none() || self.graph_ham_eq_b.is_none()` in the unchanged source) -/
 def ensureCaches (ops : Ops F64 R Q U) (tc : TC F64 R Q) : TC F64 R Q :=
-  if tc.graph_ham_eq_a.isNone || tc.graph_ham_eq_b.isNone then makeHamEqualities ops tc else tc
+  if tc.rebuildGuard then makeHamEqualities ops tc else tc
 
 /-- after the caches are there: raise every cutoff to the maximum, draw the phase order, run both phases -/
 def temperingRest (ops : Ops F64 R Q U)
